@@ -10,6 +10,7 @@ import (
 	"github.com/DataDog/datadog-go/v5/statsd"
 	"go.uber.org/zap"
 	"go.uber.org/zap/zapcore"
+	"go.uber.org/zap/zaptest/observer"
 
 	"github.com/mimiro-io/datahub/internal/conf"
 	"github.com/mimiro-io/datahub/internal/server"
@@ -25,15 +26,25 @@ type Hub struct {
 	PfxE  string // CURIE prefix the store assigned to ExE
 	PfxS  string
 	Full  *FullHub // non-nil for hub-level profiles
+	Logs  *observer.ObservedLogs // when knob observeLogs=1: warnings and errors the hub logged
 }
 
 func nopLogger() *zap.SugaredLogger {
 	return zap.New(zapcore.NewNopCore(), zap.WithFatalHook(zapcore.WriteThenPanic)).Sugar()
 }
 
+var lastObserved *observer.ObservedLogs
+
 func newEnv(dir string, knobs map[string]int64) *conf.Config {
+	logger := nopLogger()
+	lastObserved = nil
+	if knobs["observeLogs"] == 1 {
+		core, logs := observer.New(zapcore.WarnLevel)
+		logger = zap.New(core, zap.WithFatalHook(zapcore.WriteThenPanic)).Sugar()
+		lastObserved = logs
+	}
 	env := &conf.Config{
-		Logger:        nopLogger(),
+		Logger:        logger,
 		StoreLocation: dir,
 		// keep the value log small: every open store otherwise maps a 2 GB sparse file
 		ValueLogFileSize: 1 << 20,
@@ -57,7 +68,7 @@ func OpenHub(dir string, knobs map[string]int64) (h *Hub, err error) {
 		}
 	}()
 	env := newEnv(dir, knobs)
-	h = &Hub{Dir: dir, Env: env}
+	h = &Hub{Dir: dir, Env: env, Logs: lastObserved}
 	h.Store = server.NewStore(env, &statsd.NoOpClient{})
 	h.Dsm = server.NewDsManager(env, h.Store, server.NoOpBus())
 	h.PfxE, err = h.Store.NamespaceManager.AssertPrefixMappingForExpansion(ExE)
